@@ -397,6 +397,10 @@ func deviations() []deviation {
 	add(deviation{name: "crit-lists-st-text", c: C(cCrit(func(l []any) []any { return append(l, kST) }))})
 	add(deviation{name: "crit-dup-scheme", j: J(jCrit(func(l []string) []string { return append(l, kScheme) })),
 		c: C(cCrit(func(l []any) []any { return append(l, kScheme) }))})
+	// the crit list names an extended attribute twice: the attribute is still surfaced once
+	add(deviation{name: "crit-dup-attr", plan: func(p *hplan) {
+		p.Attrs = append(p.Attrs, hattr{TextKey: "vendor.policy", Raw: `"strict"`, Val: "strict", Crit: true})
+	}, j: J(jCrit(func(l []string) []string { return append(l, "vendor.policy") })), c: C(cCrit(func(l []any) []any { return append(l, "vendor.policy") }))})
 	add(deviation{name: "crit-lists-absent-attr", j: J(jCrit(func(l []string) []string { return append(l, "com.example.absent") })),
 		c: C(cCrit(func(l []any) []any { return append(l, "com.example.absent") }))})
 	add(deviation{name: "ext-big-uint", c: C(cSet("x.big", uint64(12345678901234567890)))})
@@ -411,6 +415,11 @@ func deviations() []deviation {
 	}
 	add(deviation{name: "case-variant-dup-Alg-PS256", j: J(jAdd("Alg", `"PS256"`))})
 	add(deviation{name: "case-variant-long-s", j: J(jAdd("io.cncf.notary.ſigningScheme", `"notary.x509.other"`))})
+	// U+017F (long s) folds to "s" under Unicode simple case folding - what encoding/json uses to bind members to fields -
+	// but is left alone by strings.ToLower: a second spelling of the time headers, carrying another time
+	add(deviation{name: "case-variant-long-s-signingTime", j: J(jAdd("io.cncf.notary.ſigningTime", `"2031-05-05T00:00:00Z"`))})
+	add(deviation{name: "case-variant-long-s-authenticSigningTime", j: J(jAdd("io.cncf.notary.authenticſigningTime", `"2031-05-05T00:00:00Z"`))})
+	add(deviation{name: "case-variant-long-s-expiry-crit", j: J(jAdd("io.cncf.notary.ſigningScheme", `"notary.x509"`))})
 	add(deviation{name: "sig-flip", j: J(func(s *jwsSpec) { s.ExtraTop = append(s.ExtraTop, jMember{"\x00flip", ""}) }), c: C(func(s *coseSpec) { s.Unprotected = append(s.Unprotected, cEntry{"\x00flip", 0}) })})
 	add(deviation{name: "sig-empty", j: J(func(s *jwsSpec) { e := ""; s.SigB64 = &e }), c: C(func(s *coseSpec) { s.Sig = []byte{} })})
 	add(deviation{name: "protected-not-json", j: J(func(s *jwsSpec) { t := "not json"; s.ProtectedTxt = &t })})
@@ -607,6 +616,9 @@ func emitEnvelopeOut(w *CaseWriter, mt string, b []byte, labels []string, expect
 func applyDev(p *hplan, d deviation) bool {
 	if d.plan != nil {
 		d.plan(p)
+	}
+	if d.plan != nil && d.j == nil && d.c == nil {
+		// plan-level only
 	} else if p.Fmt == 0 {
 		if d.j == nil {
 			return false
